@@ -11,6 +11,7 @@ RULE = ('Hypothesis draws (T, v) from the type universe U (depth<=3, arbitrary t
         'encoder mode (defMode, maxChunkSize); oracle: absval(ber.decode(ber.encode(v, mode), asn1Spec=T)) == v with empty '
         'remainder, one-shot and through StreamingDecoder(BytesIO). A case is non-trivial when T is constructed or tagged or '
         'the mode is not (definite, unchunked); distinct = distinct (T, v, mode).')
+RULE += (' ' + 'U includes constructed DEFAULTs, types sharing one base object, application subclasses with a typeId of their own, a numbers-only sub-universe (REAL in every base / exponent width), lists of 100 and more elements and the class-wide binEncBase preference as one more mode.')
 ASSUMPTIONS = ['abstract content is read with non-instantiating accessors (pv/core/absval.py)',
                'REAL values are compared as exact rationals']
 SHARDS = {'quick': (16, 250), 'thorough': (16, 6000)}
